@@ -6,12 +6,14 @@ Run-time side: every case line of this package (`place` in three placements, `pl
 formatting) is run in two worker processes, SONIC_MODE unset (AVX2 on this CPU) and SONIC_MODE=noavx2
 (SSE); every result field must be bit-identical.  The workers print which level is active (`mode=`).
 """
+import os
 import re
 
+from .. import core
 from ..runner import Spec, Stream
 
 ENVS = {"avx2": {}, "sse": {"SONIC_MODE": "noavx2"}}
-FIELDS = ("sonic", "guard", "tail")
+FIELDS = ("sonic", "guard", "tail", "pre")
 
 _ERRPOS = re.compile(r"(syntax\.\d+)@\d+")
 
@@ -45,9 +47,54 @@ def two_defects(tok):
     return defects >= 2
 
 
+# which entry points of the harness reach which slot of the dispatch table (read off the call sites: JIT decoder /
+# encoder `native.S_*` immediates, Go stubs `native.X` -> `__X`); slots nothing in the default configuration reaches
+# are covered by the static tie (Props/C13Dispatch.lean) only
+SLOT_APIS = {
+    "S_f64toa": {"ftoa64", "encinto_any", "mar_num"}, "S_f32toa": {"ftoa32"}, "S_i64toa": {"itoa"}, "S_u64toa": {"itoa"},
+    "S_lspace": {"unm_any", "unm_struct", "unm_map", "unm_sl", "unm_ints", "unm_arr2", "unm_starr"},
+    "S_quote": {"mar_str", "mar_strstd", "encinto_any"}, "__Quote": {"quote"},
+    "S_unquote": {"unm_str", "unm_strstd", "unm_struct", "unm_arr1s"}, "__Unquote": {"unquote"},
+    "S_value": {"unm_any", "unm_anystd", "unm_anynum", "unm_sl", "unm_map"},
+    "__Value": {"ast_loads", "ast_parse", "ast_parseobj", "node_load", "node_loadall", "node_iface"},
+    "S_vstring": {"unm_str", "unm_struct", "unm_arr1s"}, "S_vnumber": {"unm_f64", "unm_f32", "unm_starr"},
+    "S_vsigned": {"unm_int", "unm_i8", "unm_ints", "unm_arr2"}, "S_vunsigned": {"unm_u64"},
+    "S_skip_one": {"unm_struct", "unm_structstd", "unm_raw", "unm_starr"}, "__SkipOne": {"skip", "get", "getk", "geti", "getki"},
+    "__SkipOneFast": {"getf", "getfk", "getfi"}, "S_skip_array": {"unm_arr2", "unm_arr1s", "unm_arr0", "unm_starr"},
+    "S_skip_number": {"unm_num", "unm_struct"}, "S_get_by_path": {"get", "getk", "geti", "getki"},
+    "__GetByPath": {"get", "getf", "getk", "getfk", "geti", "getfi", "getki"}, "__HTMLEscape": {"html", "mar_strstd"},
+    "__ValidateOne": {"valid", "validstd", "mar_raw"}, "__ValidateUTF8": {"utf8c"}, "__ValidateUTF8Fast": {"utf8v", "utf8vs"},
+    "S_skip_object": set(), "__F64toa": set(), "__F32toa": set(), "__I64toa": set(), "__U64toa": set(), "__ParseWithPadding": set(),
+}
+
+
 class C13(Spec):
     prop = "C13"
-    lean_modules = ["SonicSpec.Props.C13"]
+    lean_modules = ["SonicSpec.Props.C13", "SonicSpec.Props.C13Dispatch"]
+    # static tie: go/factx_dispatch re-reads useAVX2()/useSSE() of internal/native/dispatch_amd64.go into
+    # Generated/Dispatch.lean; Props/C13Dispatch.lean `dispatch_tables_wired` is re-checked against it on every run
+    # (the extractor is also registered in core.EXTRA_EXTRACTORS so that bin/setup and every full fact run keep the
+    # file present; this check runs only its own extractor: ~1 s instead of the ~40 s of a full run_factx)
+
+    def pregen(self, rundir):
+        import subprocess
+        src = os.path.join(core.VERIF, "go", "factx_dispatch")
+        xb = os.path.join(os.path.abspath(rundir), "factx_dispatch")
+        b = subprocess.run(["go", "build", "-o", xb, "."], cwd=src, env=core.GOENV, stdout=subprocess.PIPE,
+                           stderr=subprocess.STDOUT, text=True, timeout=600)
+        if b.returncode != 0:
+            return False, "factx_dispatch build failed:\n" + b.stdout
+        r = subprocess.run([xb, core.REPO], stdout=subprocess.PIPE, stderr=subprocess.PIPE, text=True, timeout=300)
+        if r.returncode != 0 or not r.stdout.strip():
+            return False, "factx_dispatch: " + r.stderr[-1500:]
+        gen = os.path.join(core.LEAN, "SonicSpec", "Generated")
+        path = os.path.join(gen, "Dispatch.lean")
+        with core.Lock("lake"):
+            os.makedirs(gen, exist_ok=True)
+            if not os.path.exists(path) or open(path).read() != r.stdout:
+                open(path, "w").write(r.stdout)
+        return True, ""
+
     rule = ("every `place` / `plain` case line of the mem package (documents, numbers, strings, raw byte strings, float/integer "
             "formatting, length x alignment sweep, malformed stream) answered by one worker with SONIC_MODE unset (AVX2) and one with "
             "SONIC_MODE=noavx2 (SSE); non-trivial = both workers answered, report different `mode=` values, and the input is non-empty")
@@ -116,7 +163,19 @@ class C13(Spec):
             return None
         return "\t".join(list(case) + [sonic.get("mode") or "avx2"])
 
+    def extra(self, ctx):
+        # per-slot coverage of the dispatch table by the case streams of this run (counted in `nontrivial`)
+        self._slotcov = {k: 0 for k in SLOT_APIS}
+        ctx["run"].cov["dispatch_slot_cases"] = self._slotcov
+        ctx["run"].cov["dispatch_slots_static_tie_only"] = sorted(k for k, v in SLOT_APIS.items() if not v)
+        return []
+
     def nontrivial(self, case, sonic, model):
+        sc = getattr(self, "_slotcov", None)
+        if sc is not None and len(case) > 1:
+            for k, v in SLOT_APIS.items():
+                if case[1] in v:
+                    sc[k] += 1
         a = sonic.get("avx2") or {}
         b = sonic.get("sse") or {}
         if len(case) < 3 or case[2] == "-":
